@@ -1,4 +1,5 @@
 import RNacos.Model.LogStore
+import RNacos.Lemmas.MgrCat
 import RNacos.Driver.Util
 /-
 Line protocol of model `logstore` (C02/C03, the whole Raft log through FileStore).
@@ -34,7 +35,29 @@ def answer (s : Store) (ws : List String) : Store × String :=
   | ["last"] => (s, s!"last {(last s).1} {(last s).2}")
   | ["compact", i, t] => (compact s (n i) (n t), "ok")
   | ["files"] => (s, "files *")
+  | ["cat"] => (s, "cat *")
   | _ => (s, "bad-op")
+
+/-- `id:start:count:split:closed` rows of the persisted catalogue -/
+def parseRows (t : String) : Option (List RNacos.LogManager.CatRow) :=
+  if t == "-" then some [] else
+  (t.splitOn ",").mapM fun r =>
+    match (r.splitOn ":").map String.toNat? with
+    | [some i, some st, some c, some sp, some cl] => some ⟨i, st, c, sp, cl != 0⟩
+    | _ => none
+
+/-- the catalogue the real manager has written, judged by the model's invariant (`chain_rowsOK`, `chain_lastOK`:
+implied by `Chain`, on which the refinement theorems rest) and against the specification's log: file ids increase, the
+visible log starts at the first file's split point -/
+def catVerdict (s : Store) (rows : List RNacos.LogManager.CatRow) : Option String :=
+  let ids := rows.map (·.id)
+  let first := match s.ents.head? with | some e => some e.index | none => s.next
+  if !RNacos.LogManager.rowsOK rows then some "the catalogue of log files violates the manager invariant (closed prefix, adjacent visible ranges, open last file)"
+  else if !RNacos.LogManager.lastOK rows s.next then some s!"the open log file does not end where the log ends (next expected index {s.next})"
+  else if !(ids.zip (ids.drop 1)).all (fun p => p.1 < p.2) then some "log file ids do not increase"
+  else match rows.head?, first with
+    | some f0, some i => if f0.splitOff == i then none else some s!"the first log file is split at {f0.splitOff} but the log starts at {i}"
+    | _, _ => none
 
 def step (s : Store) (ws : List String) : Store × String := answer s ws
 
@@ -53,6 +76,13 @@ def specStep (st : SpecSt) (ws : List String) : SpecSt × String :=
     let st2 := { st with pending := [], s := r.1 }
     match op with
     | "files" :: _ => (st2, "-")
+    | ["cat"] =>
+      match ans with
+      | ["cat", t] =>
+        match parseRows t with
+        | some rows => (st2, match catVerdict st2.s rows with | some m => "spec FAIL " ++ m | none => "spec ok")
+        | none => (st2, "spec FAIL unparsable catalogue")
+      | _ => (st2, "spec FAIL no catalogue")
     | "open" :: _ => (st2, if ans == ["ok"] then "spec ok" else "spec FAIL the store does not open")
     | ["reopen"] => (st2, if ans == ["ok"] then "spec ok" else "spec FAIL the store does not reopen")
     | _ =>
